@@ -5,6 +5,8 @@ import Proofs.Team
 import Proofs.TeamAll
 import Proofs.EffortGlobal
 import Proofs.TeamEffort
+import Proofs.OneSet
+import Proofs.TeamSame
 import Proofs.WFCheck
 /-!
 C03 — a scheduled task receives exactly its effort.
@@ -284,5 +286,40 @@ example : TeamElig (elaborate f32).env 1 [0, 1] 1 :=
   teamElig_of_alloc _ 1 [0, 1] 1 (by decide +kernel) (by decide +kernel) (by decide +kernel) (by decide +kernel)
     (by decide +kernel) (by decide +kernel) (by decide +kernel) (by decide +kernel)
     (by intro r hr; simp at hr; rcases hr with h | h <;> subst h <;> decide +kernel) (by decide +kernel)
+
+/-! ### alternatives, end to end -/
+
+/-- **C03, third clause, for whole projects** (`Proofs/OneSet`): after scheduling ANY project — no hypothesis at all — all the
+    bookings of any task lie on the members of ONE candidate set: its primary allocation or its alternative allocation
+    (whichever `_selectBestResources` chose at the task's first slot), never a mixture of the two and never a resource outside
+    both. -/
+theorem bookings_on_one_candidate_set (e : Env) (t : Nat) :
+    ∃ S : List Nat, (S = [] ∨ S = (e.taskD t).alloc ∨ S = (e.taskD t).alt) ∧
+      ∀ r i, usageOf ((runScenario e).led.get r i).usage t ≠ none → r ∈ S :=
+  runScenario_oneSet e t
+
+/-! ### teams of any efficiencies, end to end -/
+
+/-- a task whose allocation is a list of several pairwise different resources (no alternatives) is a team task in every state -/
+theorem teamAny_of_alloc (e : Env) (t : Nat) (sel : List Nat) (hlf : (e.taskD t).leaf = true)
+    (ha : (e.taskD t).hasAlloc = true) (hm : (e.taskD t).milestone = false) (hpos : 0 < (e.taskD t).effort)
+    (hal : (e.taskD t).alloc = sel) (halt : (e.taskD t).alt = []) (hmany : 1 < sel.length) (hnd : sel.Nodup) :
+    TeamAny e t sel :=
+  ⟨hlf, ha, hm, hpos, fun σ c => by
+      rw [hal, halt]
+      unfold selectBest
+      have : sel.isEmpty = false := by cases sel with
+        | nil => simp at hmany
+        | cons _ _ => rfl
+      simp [this], hmany, hnd⟩
+
+/-- **C03, second clause, for whole projects and ANY team** (`Proofs/TeamSame`): after scheduling ANY well-formed project, all
+    members of a team allocation — several pairwise different resources, whatever their efficiencies, calendars, limits and
+    other bookings — hold entries of the task in exactly the same slots for exactly the same seconds: the team works the same
+    instants. -/
+theorem team_same_instants (e : Env) (wf : WF e) (t : Nat) (sel : List Nat) (hel : TeamAny e t sel) :
+    ∀ r ∈ sel, ∀ r' ∈ sel, ∀ i,
+      usageOf ((runScenario e).led.get r i).usage t = usageOf ((runScenario e).led.get r' i).usage t :=
+  runScenario_teamsSame e wf t sel hel
 
 end SP.C03
